@@ -208,7 +208,7 @@ def run(chk):
     chk.prove([kw_tr.translate])
     disagreements, failures = [], []
 
-    n, per = (380, 4) if chk.thorough else (85, 3)
+    n, per = (600, 4) if chk.thorough else (85, 3)
     cases = gen_cases(chk, n, per)
     idx = [list(range(i, len(cases), core.NPROC)) for i in range(core.NPROC)]
     idx = [ix for ix in idx if ix]
